@@ -63,6 +63,19 @@ CLAIMED = {
    note=TRUST + "That the rewriter reaches every sub-expression and that Lower.v mirrors the traversal is tied by AST/error-class correspondence on programs with every unsupported construct injected at every reachable position.",
    technique="Coq proof by structural induction over the statement AST (custom nested induction principle) + generated dispatch table + injection-based correspondence/oracle",
    ref="5/C08"),
+ "C05": dict(
+   text="Theorem C05_module_simulation (Qed, closed under the global context): for EVERY nesting of markers, if/else, while, for, "
+        "loop-else, break and continue at module level, every oracle of condition outcomes / iterator exhaustion and every fuel, if "
+        "the reference semantics of the source completes with trace tr then the expression produced by the converter model "
+        "(expr_wrapper=list, if_style=if_expr) evaluates under the scaffolding evaluation rules with exactly the same trace "
+        "(markers, every condition with its outcome, iterable evaluation, iter(), every next()). Proved by induction on the fuel of "
+        "the source interpreter with invariants on the break/interrupt/return flags (C05_simulation_invariant covers any context, "
+        "incl. return inside nested loops); guard placement is characterised by structural predicates that replace the code's "
+        "counters. Partial: function/class placement, chain_call and short_circuit are decided by AST correspondence plus trace "
+        "equality on the real code only.",
+   note=TRUST + "KSem.v holds the reference semantics of the skeleton statements and the evaluation rules of the scaffolding expressions; both are validated against CPython each run by comparing traces of instrumented probes on the source and on the REAL converter output (model evaluator run on the real output AST).",
+   technique="Coq simulation proof (induction on interpreter fuel, flag invariants, fuel-monotone evaluator) over the whole-converter model + AST correspondence + trace-equality oracle",
+   ref="5/C05, Appendix A"),
 }
 PENDING_REASON = "not yet built in this round: model/theorem under construction (see DESIGN.md section 8 build order); not claimed until its minimum is proved and tied"
 ALL = [f"C{i:02d}" for i in range(1, 18)]
